@@ -8,7 +8,7 @@ ENV = dict(os.environ, GOFLAGS='-mod=mod', GOPROXY='off', GOTOOLCHAIN='auto')
 ENV.pop('GOSUMDB', None)
 ENV['VERIF_EVIDENCE_DIR'] = '/tmp/seed_evidence'   # a seeded run must not overwrite the evidence of the real tree
 os.makedirs('/tmp/seed_evidence', exist_ok=True)
-WT = '/tmp/wt_verify'
+WT = os.environ.get('SEEDTEST_WT', '/tmp/wt_verify')
 
 
 def sh(cmd, cwd=None, timeout=1500):
